@@ -316,6 +316,17 @@ func init() {
 		rec := FindFunc(pt, "partition", "recovery")
 		sb.WriteString("def recoveryConds : List String := " + LeanStrList(c08CondTexts(rec)) + "\n")
 		sb.WriteString("def recoveryCalls : List String := " + LeanStrList(c08Calls(rec)) + "\n")
+		// which of its two copy-on-write maps buildReplica / stopReplicator test and publish
+		br, sr := FindFunc(pt, "partition", "buildReplica"), FindFunc(pt, "partition", "stopReplicator")
+		sb.WriteString("def buildReplicaExistsMaps : List String := " + LeanStrList(c08CommaOkMaps(br)) + "\n")
+		sb.WriteString("def buildReplicaPublishes : List String := " + LeanStrList(c08FieldAssigns(br, "p")) + "\n")
+		sb.WriteString("def stopReplicatorExistsMaps : List String := " + LeanStrList(c08CommaOkMaps(sr)) + "\n")
+		sb.WriteString("def stopReplicatorPublishes : List String := " + LeanStrList(c08FieldAssigns(sr, "p")) + "\n")
+		// where the replica service client (a stub bound to one pooled connection) is created, and where the
+		// stream is dropped: "<function>[ if <enclosing conditions>]"
+		sb.WriteString("def createClientSites : List String := " + LeanStrList(c08CallSites(rr, "CreateReplicaServiceClient")) + "\n")
+		sb.WriteString("def closeStreamSites : List String := " + LeanStrList(c08CallSites(rr, "closeStream")) + "\n")
+		sb.WriteString("def closeStreamConds : List String := " + LeanStrList(c08CondTexts(FindFunc(rr, "remoteReplicator", "closeStream"))) + "\n")
 		sb.WriteString("def handlerReplicaLogArgs : List String := " + LeanStrList([]string{
 			c08Text(c08CallArg(hr, "p.ReplicaLog", 0)), c08Text(c08CallArg(hr, "p.ReplicaLog", 1))}) + "\n")
 		sb.WriteString("def handlerResetArg : String := " + fmt.Sprintf("%q", c08Text(c08CallArg(FindFunc(hd, "ReplicaHandler", "Reset"), "p.ResetReplicaIndex", 0))) + "\n\n")
@@ -587,5 +598,98 @@ func c08StoreArgs(fd *ast.FuncDecl) []string {
 		}
 		return true
 	})
+	return out
+}
+
+// c08CommaOkMaps lists the map expression of every `_, ok := m[k]` / `v, ok := m[k]` in fd, in source order.
+func c08CommaOkMaps(fd *ast.FuncDecl) []string {
+	var out []string
+	if fd == nil || fd.Body == nil {
+		return nil
+	}
+	ast.Inspect(fd.Body, func(n ast.Node) bool {
+		if as, ok := n.(*ast.AssignStmt); ok && len(as.Lhs) == 2 && len(as.Rhs) == 1 {
+			if ix, ok := as.Rhs[0].(*ast.IndexExpr); ok {
+				out = append(out, types.ExprString(ix.X))
+			}
+		}
+		return true
+	})
+	return out
+}
+
+// c08FieldAssigns lists "recv.field" for every plain assignment `recv.field = ...` in fd, in source order.
+func c08FieldAssigns(fd *ast.FuncDecl, recv string) []string {
+	var out []string
+	if fd == nil || fd.Body == nil {
+		return nil
+	}
+	ast.Inspect(fd.Body, func(n ast.Node) bool {
+		if as, ok := n.(*ast.AssignStmt); ok && as.Tok == token.ASSIGN {
+			for _, l := range as.Lhs {
+				if se, ok := l.(*ast.SelectorExpr); ok {
+					if id, ok := se.X.(*ast.Ident); ok && id.Name == recv {
+						out = append(out, recv+"."+se.Sel.Name)
+					}
+				}
+			}
+		}
+		return true
+	})
+	return out
+}
+
+// c08CallSites lists, for every call of a function/method named name in file f, the enclosing function and
+// the conditions of the if statements around the call.
+func c08CallSites(f *ast.File, name string) []string {
+	var out []string
+	for _, d := range f.Decls {
+		fd, ok := d.(*ast.FuncDecl)
+		if !ok || fd.Body == nil {
+			continue
+		}
+		var walk func(n ast.Node, conds []string)
+		walk = func(n ast.Node, conds []string) {
+			if n == nil {
+				return
+			}
+			switch x := n.(type) {
+			case *ast.IfStmt:
+				if x.Init != nil {
+					walk(x.Init, conds)
+				}
+				walk(x.Cond, conds)
+				c := types.ExprString(x.Cond)
+				walk(x.Body, append(append([]string{}, conds...), c))
+				if x.Else != nil {
+					walk(x.Else, append(append([]string{}, conds...), "!("+c+")"))
+				}
+				return
+			case *ast.CallExpr:
+				fn := ""
+				switch g := x.Fun.(type) {
+				case *ast.SelectorExpr:
+					fn = g.Sel.Name
+				case *ast.Ident:
+					fn = g.Name
+				}
+				if fn == name {
+					s := fd.Name.Name
+					if len(conds) > 0 {
+						s += " if " + strings.Join(conds, " && ")
+					}
+					out = append(out, s)
+				}
+			}
+			ast.Inspect(n, func(m ast.Node) bool {
+				if m == n || m == nil {
+					return true
+				}
+				walk(m, conds)
+				return false
+			})
+		}
+		walk(fd.Body, nil)
+	}
 	return out
 }
